@@ -12,3 +12,23 @@ Definition inputs_of (vars : varmap) (env : nat -> f32) : list f32 := map env va
 Definition run_point (o : oracle) (tape : list fop) (nout : nat) (inputs : list f32) : list f32 * list tchoice :=
   let st := eval_tape (f32_sem o) tape inputs (fresh_env (f32_sem o)) (fresh_out (f32_sem o) nout) in
   (m_out st, rev (m_trace st)).
+
+(* ---- C04 family glue ---- *)
+From FV Require Import Simplify Interval F32Interval.
+From FVGen Require Import SimplifyGen.
+
+Definition run_interval (o : oracle) (tape : list fop) (nout : nat) (inputs : list (option (interval f32)))
+  : list (option (interval f32)) * list tchoice :=
+  let sem := f32_interval_sem o in
+  let st := eval_tape sem tape inputs (fresh_env sem) (fresh_out sem nout) in
+  (m_out st, rev (m_trace st)).
+
+Definition mk_interval (o : oracle) (l u : f32) : option (interval f32) := inew (f32_fl o) l u.
+
+(* the `simplify` flag of the tracing evaluators: some choice is not Both *)
+Definition trace_useful (t : list tchoice) : bool :=
+  existsb (fun c => match c with TBoth => false | _ => true end) t.
+
+(* VmData::simplify with the closing assertion as the source has it on this run *)
+Definition fsimplify (m : nat) (parent : list fop) (cc : nat) (trace : list tchoice) :=
+  simplify gen_simplify_assert_outputs m parent cc trace.
